@@ -249,6 +249,38 @@ impl H {
                 }
                 Err(k) => println!("R panic {k}"),
             },
+            // many entities in one op (one state print): reaches slot counts and populations that single spawns never do
+            "spawnmany" => {
+                let n = t.int();
+                let mut fail = None;
+                for _ in 0..n {
+                    match self.guarded(|w| w.spawn()) {
+                        Ok(id) => ST.with(|s| s.borrow_mut().ids.push(id)),
+                        Err(k) => {
+                            fail = Some(k);
+                            break;
+                        }
+                    }
+                }
+                match fail {
+                    None => println!("R ok"),
+                    Some(k) => println!("R panic {k}"),
+                }
+            }
+            "despawnall" => {
+                let ids: Vec<EntityId> = ST.with(|s| s.borrow().ids.clone());
+                let mut fail = None;
+                for e in ids {
+                    if let Err(k) = self.guarded(|w| w.despawn(e)) {
+                        fail = Some(k);
+                        break;
+                    }
+                }
+                match fail {
+                    None => println!("R ok"),
+                    Some(k) => println!("R panic {k}"),
+                }
+            }
             "insert" => {
                 let e = ent(t.int());
                 let k = t.int() as u32;
